@@ -36,12 +36,13 @@ type bounds struct {
 	lineOps   int // seeds up to this size: delete/duplicate/swap lines
 	sigmaAll  int // seeds up to this size: sigma-replace at every offset
 	sigmaLine int // seeds up to this size (and above sigmaAll): sigma-replace at line starts
+	byteOps   int // seeds up to this size: delete byte i, duplicate byte i
 	binFF     bool
 }
 
 func boundsFor(tier string) bounds {
 	if tier == "thorough" {
-		return bounds{truncAll: 64 << 10, lineOps: 64 << 10, sigmaAll: 4 << 10, sigmaLine: 64 << 10, binFF: true}
+		return bounds{truncAll: 64 << 10, lineOps: 64 << 10, sigmaAll: 32 << 10, sigmaLine: 64 << 10, byteOps: 16 << 10, binFF: true}
 	}
 	return bounds{truncAll: 2 << 10, lineOps: 64 << 10, sigmaAll: 0, sigmaLine: 2 << 10, binFF: false}
 }
@@ -92,6 +93,10 @@ func (d mutDesc) String() string {
 		return fmt.Sprintf("replace[%d]=%q", d.A, string(rune(sigma[d.B])))
 	case "setbyte":
 		return fmt.Sprintf("set[%d]=%#02x", d.A, d.B)
+	case "delbyte":
+		return fmt.Sprintf("delete-byte[%d]", d.A)
+	case "dupbyte":
+		return fmt.Sprintf("duplicate-byte[%d]", d.A)
 	}
 	return fmt.Sprintf("%s-line(%d)", d.Op, d.A)
 }
@@ -186,6 +191,24 @@ func enumerate(seed []byte, tier string, from int, fn func(seq int, d mutDesc, d
 			if !emit(mutDesc{Op: "sigma", A: i, B: t}, func() []byte {
 				buf = append(buf[:0], seed...)
 				buf[i] = c
+				return buf
+			}) {
+				return seq
+			}
+		}
+	}
+	if n <= b.byteOps {
+		for i := 0; i < n; i++ {
+			if !emit(mutDesc{Op: "delbyte", A: i}, func() []byte {
+				buf = append(append(buf[:0], seed[:i]...), seed[i+1:]...)
+				return buf
+			}) {
+				return seq
+			}
+		}
+		for i := 0; i < n; i++ {
+			if !emit(mutDesc{Op: "dupbyte", A: i}, func() []byte {
+				buf = append(append(buf[:0], seed[:i+1]...), seed[i:]...)
 				return buf
 			}) {
 				return seq
